@@ -914,11 +914,21 @@ class TFLiteSupportedOperators:
     @docstring_format_args([mean_reduced_axis_max_size])
     def constraint_mean_width(cls, op):
         """If Width axis is reduced its shape must be no greater than {}."""
-        shape = op.inputs[0].shape
-        hi = 0 if len(shape) < 4 else 1
-        h, w = shape[hi : hi + 2]
         max_width = cls.mean_reduced_axis_max_size
-        return w <= max_width, f"Width is {w}"
+        shape = op.inputs[0].shape
+
+        if op.inputs[1].shape == []:
+            axis = [int(op.inputs[1].values)]
+        else:
+            axis = list(op.inputs[1].values)
+
+        width_idx = len(shape) - 2
+
+        supported = True
+        if width_idx in axis and shape[width_idx] > max_width:
+            supported = False
+
+        return supported, f"Width is {shape[width_idx]}, shape is {shape}, axis is {axis}"
 
     @classmethod
     @docstring_format_args([mean_reduced_axis_max_size])
